@@ -65,45 +65,53 @@ Fixpoint upd {A} (i : nat) (x : A) (l : list A) : list A :=
   | y :: r, S j => y :: upd j x r
   end.
 
-(** nextQid is a uint64; Add would wrap only after 2^63 allocations, each of which
-    leaves a table entry behind: out of reach, not modelled. *)
-Definition fstep1 (t : list (key * N)) (n : N) (p : fpc) : list (key * N) * N * fpc :=
+(** nextQid and PathGenerator.uids are uint64 counters: Add(1) wraps at 2^64. *)
+Definition inc64 (n : N) : N := (n + 1) mod two64.
+
+(** [inc]: how the counter advances ([inc64] in the code; the proofs also use
+    the unbounded [fun n => n + 1] and show the two coincide below the bound) *)
+Definition fstep1g (inc : N -> N) (t : list (key * N)) (n : N) (p : fpc) : list (key * N) * N * fpc :=
   match p with
   | FStart k => match klookup k t with Some v => (t, n, FDone k v) | None => (t, n, FAdd k) end
-  | FAdd k => let v := n + 1 in (t, v, FStore k v)
+  | FAdd k => let v := inc n in (t, v, FStore k v)
   | FStore k v => match klookup k t with Some v' => (t, n, FDone k v') | None => ((k, v) :: t, n, FDone k v) end
   | FDone _ _ => (t, n, p)
   end.
 
 (** thread [i] takes its next step *)
-Definition fstep (s : fstate) (i : nat) : fstate :=
+Definition fstepg (inc : N -> N) (s : fstate) (i : nat) : fstate :=
   match nth_error (f_thr s) i with
   | None => s
-  | Some p => let '(t, n, p') := fstep1 (f_tbl s) (f_next s) p in mkF t n (upd i p' (f_thr s))
+  | Some p => let '(t, n, p') := fstep1g inc (f_tbl s) (f_next s) p in mkF t n (upd i p' (f_thr s))
   end.
 
-Definition frun (s : fstate) (sched : list nat) : fstate := fold_left fstep sched s.
+Definition frung (inc : N -> N) (s : fstate) (sched : list nat) : fstate := fold_left (fstepg inc) sched s.
 Definition finit (keys : list key) : fstate := mkF [] next0 (map FStart keys).
 
+Definition fstep1 := fstep1g inc64.
+Definition fstep := fstepg inc64.
+Definition frun := frung inc64.
+
 (** localToQid as a function (a call that is not interleaved with another) *)
-Definition local_to_qid (t : list (key * N)) (n : N) (dev ino : N) : N * list (key * N) * N :=
+Definition local_to_qid_g (inc : N -> N) (t : list (key * N)) (n : N) (dev ino : N) : N * list (key * N) * N :=
   match encodeLikely dev ino with
   | Some q => (q, t, n)
   | None =>
       match klookup (dev, ino) t with
       | Some v => (v, t, n)
-      | None => let v := n + 1 in
+      | None => let v := inc n in
                 match klookup (dev, ino) t with          (* LoadOrStore *)
                 | Some v' => (v', t, v)
                 | None => (v, ((dev, ino), v) :: t, v)
                 end
       end
   end.
+Definition local_to_qid := local_to_qid_g inc64.
 
 (** The table keyed by pointer (before fix 92a69d1): a fresh pointer is never
     found, every call stores a new entry. *)
 Definition local_to_qid_ptrkey (t : list (key * N)) (n : N) (dev ino : N) : N * list (key * N) * N :=
   match encodeLikely dev ino with
   | Some q => (q, t, n)
-  | None => let v := n + 1 in (v, ((dev, ino), v) :: t, v)
+  | None => let v := inc64 n in (v, ((dev, ino), v) :: t, v)
   end.
